@@ -167,6 +167,9 @@ pub enum Op {
     /// error, so only `bounded` and confinement are demanded of it; equality with a fresh
     /// run is demanded again at the pass after it
     FailFastNext,
+    /// Another program creates (empty) folders inside the output location; darklua is not
+    /// told. A fresh run would start with them in place.
+    ForeignDir { path: String },
     /// advance simulated time (L2 only), milliseconds
     Wait { ms: u64 },
     /// install fault rules active during the next pass only; right after that pass the
